@@ -154,57 +154,3 @@ pub fn permute<T>(site: &str, items: Vec<T>, key: impl Fn(&T) -> String) -> Vec<
     let idx = choose(site, &keys);
     nth_permutation(keyed.into_iter().map(|k| k.1).collect(), idx)
 }
-
-/// Reorder the members of the object stored under `member` in the (flat) JSON
-/// object `json`. Everything else is re-serialised unchanged (top-level members
-/// in their original order), so the production data layout stays the single
-/// source of truth for what is hashed.
-pub fn permute_json_members(site: &str, json: String, member: &str) -> String {
-    let Ok(serde_json::Value::Object(top)) = serde_json::from_str::<serde_json::Value>(&json)
-    else {
-        return json;
-    };
-    let Some(serde_json::Value::Object(inner)) = top.get(member) else {
-        return json;
-    };
-    if inner.len() < 2 {
-        return json;
-    }
-    let entries: Vec<(String, serde_json::Value)> =
-        inner.iter().map(|(k, v)| (k.clone(), v.clone())).collect();
-    let entries = permute(site, entries, |kv| kv.0.clone());
-    let rendered_inner = format!(
-        "{{{}}}",
-        entries
-            .iter()
-            .map(|(k, v)| format!(
-                "{}:{}",
-                serde_json::to_string(k).unwrap_or_default(),
-                serde_json::to_string(v).unwrap_or_default()
-            ))
-            .collect::<Vec<_>>()
-            .join(",")
-    );
-    // Find the original member order by scanning the top-level keys as they
-    // appear in the text (serde_json::Map may be sorted).
-    let mut keys_in_order: Vec<(usize, String)> = top
-        .keys()
-        .filter_map(|k| {
-            json.find(&format!("{}:", serde_json::to_string(k).ok()?))
-                .map(|pos| (pos, k.clone()))
-        })
-        .collect();
-    keys_in_order.sort();
-    let rendered: Vec<String> = keys_in_order
-        .iter()
-        .map(|(_, k)| {
-            let v = if k == member {
-                rendered_inner.clone()
-            } else {
-                serde_json::to_string(&top[k]).unwrap_or_default()
-            };
-            format!("{}:{}", serde_json::to_string(k).unwrap_or_default(), v)
-        })
-        .collect();
-    format!("{{{}}}", rendered.join(","))
-}
